@@ -5,6 +5,7 @@ use crate::error::Error::{
     UnquotedNil,
 };
 use crate::vm::Vm;
+use crate::vm::builtin;
 use crate::vm::environment::{BindingLocation, free_symbols, internally_defined_symbols};
 use crate::vm::lambda::Lambda;
 use crate::vm::opcode::OpCode;
@@ -706,16 +707,20 @@ impl Vm {
         if expr.is_vector() {
             let vector = expr.as_vector().unwrap();
 
-            let new_vector = self.heap.put(VCell::vector(vec![]));
-            lambda.emit(OpCode::MovImmediate);
-            lambda.emit(new_vector);
-            lambda.emit(VCell::Acc);
-
+            // Each evaluation must yield a fresh vector: push the elements and apply
+            // the vector constructor, rather than appending to a vector that was
+            // allocated once at compile time.
             for it in vector {
-                lambda.emit(OpCode::PushAcc);
                 self.compile_quasiquote(lambda, it, depth)?;
-                lambda.emit(OpCode::VPushAcc);
+                lambda.emit(OpCode::PushAcc);
             }
+            lambda.emit(OpCode::PushImmediate);
+            lambda.emit(VCell::ArgumentCount(vector.len()));
+            let constructor = self.heap.put(builtin::vector_constructor());
+            lambda.emit(OpCode::MovImmediate);
+            lambda.emit(constructor);
+            lambda.emit(VCell::Acc);
+            lambda.emit(OpCode::CallAcc);
 
             return Ok(());
         }
